@@ -101,6 +101,7 @@ impl Engine for C05 {
     fn exhaustive(&self, tier: Tier) -> Vec<Program> {
         let (keys, blobs) = small_pools();
         let al = alphabet();
+        let a = |blob: usize| AddrRef { algo: Algo::Sha256, blob };
         let mut out = Vec::new();
         let maxl = tier.pick(3, 4);
         fn rec(al: &[Step], cur: &mut Vec<Step>, maxl: usize, keys: &[String], blobs: &[Blob], out: &mut Vec<Program>) {
@@ -117,6 +118,35 @@ impl Engine for C05 {
             }
         }
         rec(&al, &mut Vec::new(), maxl, &keys, &blobs, &mut out);
+        // bucket files whose length is exactly (or next to) a multiple of the usual 8 KiB read
+        // block when the next record is appended
+        for target in [8192usize, 16384, 8191, 8193, 24576, 4096] {
+            for variant in 0..2usize {
+                let bkeys = vec!["blk".to_string(), "other".to_string()];
+                let probe = crate::reffmt::Rec {
+                    key: bkeys[0].clone(),
+                    integrity: Some(crate::blob::sri(Algo::Sha256, &blobs[2].bytes())),
+                    time: 1,
+                    size: 1,
+                    metadata: crate::reffmt::Json::Str(String::new()),
+                    raw_metadata: None,
+                };
+                let base = crate::reffmt::encode_record(&probe, crate::reffmt::EmitStyle { ascii: false, reversed: false }).len();
+                if target <= base {
+                    continue;
+                }
+                let pad = "p".repeat(target - base);
+                let fl = |i: usize| if (i + variant) % 2 == 0 { Fl::Sync } else { Fl::Async };
+                let steps = vec![
+                    Step { op: Op::IdxInsert { key: 0, fields: IdxFields { integrity: Some(a(2)), size: Some(1), time: Some("1".into()), metadata: Some(serde_json::Value::String(pad)), raw_metadata: None } }, fl: fl(0) },
+                    Step { op: Op::Write(WriteSpec::simple(Some(0), 0)), fl: fl(1) },
+                    Step { op: Op::Remove { key: 0 }, fl: fl(0) },
+                    Step { op: Op::Write(WriteSpec::simple(Some(0), 1)), fl: fl(1) },
+                    Step { op: Op::Write(WriteSpec::simple(Some(1), 1)), fl: fl(0) },
+                ];
+                out.push(Program { keys: bkeys, blobs: blobs.to_vec(), steps });
+            }
+        }
         if tier == Tier::Thorough {
             // length 5 over a 6-symbol sub-alphabet
             let sub: Vec<Step> = [0usize, 1, 4, 6, 7, 10].iter().map(|&i| al[i].clone()).collect();
